@@ -5,36 +5,39 @@
 # 3. applies it to /repo, runs the property's quick check (and any extra properties), restores /repo.
 cd "$(dirname "$0")/.." || exit 2
 P="$1"; X="$2"; shift 2
-SRC=/tmp/seed/$P-out/$X
+SRC=${SEED_BASE:-/tmp/seed}/$P-out/$X
+TAG=${SEED_TAG:-}
+REL=""
+grep -qi -- "--release" "$SRC/notes.json" 2>/dev/null && REL="--release"
 [ -f "$SRC/patch.diff" ] || { echo "no $SRC/patch.diff"; exit 2; }
-W=/tmp/seedconfirm/$P-$X
+W=/tmp/seedconfirm/$P-$X$TAG
 rm -rf "$W"; git -C /repo worktree prune; git -C /repo worktree add -q --detach "$W" HEAD || exit 2
 cleanup() { git -C /repo worktree remove --force "$W" 2>/dev/null; git -C /repo checkout -q -- . ; }
 trap cleanup EXIT
 mkdir -p "$W/tests"; cp "$SRC/demo.rs" "$W/tests/demo.rs"
-base_demo=$(cd "$W" && cargo test --offline --test demo 2>&1 | grep -E "^test result" | head -1)
+base_demo=$(cd "$W" && cargo test --offline $REL --test demo 2>&1 | grep -E "^test result" | head -1)
 (cd "$W" && git apply "$SRC/patch.diff") || { echo "patch does not apply"; exit 2; }
 with_lib=$(cd "$W" && cargo test --offline --lib 2>&1 | grep -E "^test result" | head -1)
-with_demo=$(cd "$W" && cargo test --offline --test demo 2>&1 | grep -E "^test result" | head -1)
+with_demo=$(cd "$W" && cargo test --offline $REL --test demo 2>&1 | grep -E "^test result" | head -1)
 echo "unpatched demo: $base_demo"; echo "patched lib:    $with_lib"; echo "patched demo:   $with_demo"
 ok=1
 echo "$base_demo" | grep -q "ok\." || ok=0
 echo "$with_lib" | grep -q "ok. 88 passed; 0 failed" || ok=0
 echo "$with_demo" | grep -q "FAILED" || ok=0
-if [ $ok -ne 1 ]; then echo "NOT CONFIRMED $P-$X"; exit 3; fi
-D=seeded/$P-$X; mkdir -p "$D"; cp "$SRC/patch.diff" "$SRC/demo.rs" "$D/"
+if [ $ok -ne 1 ]; then echo "NOT CONFIRMED $P-$X$TAG"; exit 3; fi
+D=seeded/$P-$X$TAG; mkdir -p "$D"; cp "$SRC/patch.diff" "$SRC/demo.rs" "$D/"
 results=""
 for q in "$P" "$@"; do
   r=$(tools/mutant.sh "$D/patch.diff" "$q" | tail -1); echo "$r"; results="$results$r\n"
 done
-python3 - "$P" "$X" "$SRC/notes.json" "$D/meta.json" "$base_demo" "$with_lib" "$with_demo" "$results" <<'PY'
+python3 - "$P" "$X$TAG" "$SRC/notes.json" "$D/meta.json" "$base_demo" "$with_lib" "$with_demo" "$results" <<'PY'
 import json,sys
 P,X,notes,out,bd,wl,wd,res=sys.argv[1:9]
 try: n=json.load(open(notes))
 except Exception: n={}
 json.dump({"breaks_property":P,"id":f"{P}-{X}","summary":n.get("summary",""),"needs_to_manifest":n.get("needs",""),
  "author":"independent sub-agent given only the property text and a scratch worktree",
- "confirmed_by_me":{"worktree":"scratch git worktree of /repo HEAD under /tmp/seedconfirm (removed afterwards)",
+ "demo_profile":"'+('release' if '--release' in open(notes).read() else 'debug')+'","confirmed_by_me":{"worktree":"scratch git worktree of /repo HEAD under /tmp/seedconfirm (removed afterwards)",
    "unpatched: cargo test --offline --test demo":bd,"patched: cargo test --offline --lib":wl,"patched: cargo test --offline --test demo":wd},
  "checks_run":[l for l in res.replace('\\n','\n').split('\n') if l]}, open(out,'w'), indent=1)
 PY
